@@ -12,7 +12,15 @@ import (
 // Rand is splitmix64.
 type Rand struct{ s uint64 }
 
-func NewRand(seed uint64) *Rand { return &Rand{s: seed*0x9E3779B97F4A7C15 + 0x1234567} }
+// NewRand derives the initial state from seed through the splitmix64 finaliser,
+// so that NewRand(s) and NewRand(s+1) are unrelated streams (a state that is
+// linear in the seed would make them the same stream shifted by one draw).
+func NewRand(seed uint64) *Rand {
+	z := seed + 0x1234567
+	z = (z ^ (z >> 30)) * 0xBF58476D1CE4E5B9
+	z = (z ^ (z >> 27)) * 0x94D049BB133111EB
+	return &Rand{s: z ^ (z >> 31)}
+}
 
 func (r *Rand) Uint64() uint64 {
 	r.s += 0x9E3779B97F4A7C15
